@@ -10,6 +10,7 @@
 #define VF_INPUTS(X) X(unsigned char, s, [L + 1])
 #include "vf.h"
 #include "cJSON.c"
+#include "vf_frame.h"
 
 /* independent reference: returns 1 if defined on the input, writes result to out (size >= L+1) */
 static int ref_minify(const unsigned char *in, unsigned char *out)
@@ -47,7 +48,9 @@ int main(VF_MAIN_ARGS)
     orig[L] = 0;
     buf = (char *)vf_exact(orig, L + 1);
 
+    VF_FRAME_BEGIN();
     cJSON_Minify(buf);
+    VF_FRAME_END(0);
 
     n = 0; while (n <= L && buf[n] != 0) n++;
     VF_ASSERT(n <= L, "C13 result is zero-terminated inside the buffer and not longer than the original");
